@@ -269,6 +269,29 @@ def pair(ctx: Any) -> List[Ob]:
     got = {tuple(x for x in strip_ret(t)) for t in oc}
     obs.append(ob(R, proc, 'query = heappop(self._query_heap); del self._next_scheduled_for_alias[...]', 'a due, live query taken from the heap is removed from the schedule map', bool(got) and all(t.count('POP') == t.count('UNMAP') and t.count('POP') >= 1 for t in got), str(sorted(got))))
     obs.append(ob(R, proc, 'ready_types.add(query.name); schedule_rescue.append(query)', 'every due, live query -- not only the first of its type -- is asked for and gets its next rescue query scheduled (rescue entries are per record and are cancelled per record)', bool(got) and all(t.count('POP') == t.count('RESCUE') == t.count('READY') for t in got), str(sorted(got))))
+    # the map entry of the query just taken is removed BEFORE anything stores a new entry for that record: a removal after
+    # the rescue entry has been stored un-maps the rescue entry (it stays in the heap where cancel/reschedule cannot find it)
+    storers = set()
+    for m_ in qs.methods.values():
+        mm = m_.params[0] if m_.params else 'self'
+        if any(isinstance(st, ast.Assign) and isinstance(st.targets[0], ast.Subscript) and self_attr(st.targets[0].value, mm) == '_next_scheduled_for_alias' for st in walk_local_ordered(m_.node)):
+            storers.add(m_.name)
+    grew = True
+    while grew:
+        grew = False
+        for m_ in qs.methods.values():
+            if m_.name not in storers and any(isinstance(c, ast.Call) and call_name(c) in storers and isinstance(c.func, ast.Attribute) and self_attr(c.func, m_.params[0]) for c in walk_local_ordered(m_.node)):
+                storers.add(m_.name)
+                grew = True
+
+    def eff_o(node: Any, evl: Any) -> List[Any]:
+        out = [x for x in eff(node, evl) if x == 'UNMAP']
+        out += ['MAPSTORE' for c in node.calls() if call_name(c) in storers and isinstance(c.func, ast.Attribute) and self_attr(c.func, me)]
+        return out
+
+    oc_o, _ = traces(ctx, proc, {**live, 'current_time_millis()': 1000.0, '._clock_resolution_millis': 1.0}, eff_o, loop_bound=1, for_iter=lambda n, e: True)
+    late = [t for t in oc_o if 'MAPSTORE' in t and 'UNMAP' in t[t.index('MAPSTORE'):]]
+    obs.append(ob(R, proc, 'del self._next_scheduled_for_alias[query.alias] ... self.schedule_rescue_query(...)', 'the map entry of a query taken from the heap is removed before its rescue entry is stored, never after', bool(oc_o) and any('MAPSTORE' in t for t in oc_o) and not late, str(sorted(map(str, late)))[:200]))
     canc = dict(atoms)
     canc[f'{me}._query_heap'] = ['q']
     canc['.cancelled'] = True
